@@ -916,7 +916,8 @@ func torfile(w http.ResponseWriter, r *http.Request, t *tor.Torrent) {
 
 func m3uentry(w http.ResponseWriter, host string, hash hash.Hash, path path.Path) {
 	fmt.Fprintf(w, "#EXTINF:-1,%v\n",
-		strings.Replace(path[len(path)-1], ",", "", -1))
+		strings.NewReplacer(",", "", "\n", " ", "\r", " ").Replace(
+			path[len(path)-1]))
 	fmt.Fprintf(w, "http://%v/%v/%v\n",
 		host, hash, pathUrl(path))
 }
